@@ -102,6 +102,13 @@ def handleC07 (cmd : String) (args : List Sexp) : Option Sexp :=
         | .atom "int0d" => some .int0d | .atom "list" => some .list | .atom "tensor" => some .tensor | .atom "mask" => some .mask
         | .atom "range" => some .range | .atom "array" => some .array | _ => none)
       pure (.atom (indexClass items).name)
+  | "c07.update_", [init, .list srcs] => do
+      -- `objs[0].update_(src)`; src = ((key (vals…)) …)
+      let s ← C07D.initOf? init
+      let src ← srcs.mapM C07D.writeOf?
+      pure (match updateInplace (s.objs.getD 0 []) s.store src with
+        | .ok st => tagged "ok" [C07D.stateToSexp s.next { s with store := st }]
+        | .error _ => .list [.atom "err", .atom "key"])
   | "c07.setstr", [init, .atom locked, .atom mode, .atom k, vobj, .atom vkey, .list vals] => do
       -- `_set_str` of objs[0] with the value tensor objs[vobj][vkey]
       let s ← C07D.initOf? init
